@@ -1069,7 +1069,8 @@ fn oracle_c11_axisswap(fields: &[&str]) -> String {
     for (o, c) in out.iter().zip(data.iter()) {
         for i in 0..4 {
             let want = if i < n { c[order[i].unsigned_abs() as usize - 1] * if order[i] < 0 { -1.0 } else { 1.0 } } else { c[i] };
-            if o[i].to_bits() != want.to_bits() {
+            // (a NaN is a NaN, whatever its sign bit)
+            if o[i].to_bits() != want.to_bits() && !(o[i].is_nan() && want.is_nan()) {
                 return format!("oracle FAIL {def}: element {i} is {} but should be {}", o[i], want);
             }
         }
@@ -1126,7 +1127,13 @@ fn oracle_c11_unit(fields: &[&str]) -> String {
         for (o, c) in out.iter().zip(data.iter()) {
             for i in 0..4 {
                 let want = if idx.contains(&i) { c[i] * ratio } else { c[i] };
-                let ok = if idx.contains(&i) { (o[i] - want).abs() <= 1e-14 * want.abs().max(1e-300) * 8.0 || o[i] == want } else { o[i].to_bits() == want.to_bits() };
+                let ok = if o[i].is_nan() || want.is_nan() {
+                    o[i].is_nan() && want.is_nan()
+                } else if idx.contains(&i) {
+                    (o[i] - want).abs() <= 1e-14 * want.abs().max(1e-300) * 8.0 || o[i] == want
+                } else {
+                    o[i].to_bits() == want.to_bits()
+                };
                 if !ok {
                     return format!("oracle FAIL {def}: element {i} is {} but the published factors give {}", o[i], want);
                 }
